@@ -174,10 +174,19 @@ def random_family(rng: random.Random, n: int, p_fault: float, calls: bool, subs:
 def run_family(ctx, name: str, cases: list) -> dict:
     """Execute and validate a family.  Result (cacheable): stats + findings."""
     logging.disable(logging.CRITICAL)
+    from vf import watchdog
+
     traces = []
-    for i, (cfg, sch) in enumerate(cases):
-        traces.append(connsim.run_schedule(cfg, sch, seed=ctx.seed * 1000003 + i))
     findings = []
+    kept = []
+    for i, (cfg, sch) in enumerate(cases):
+        try:
+            with watchdog.limit(90, "schedule"):
+                traces.append(connsim.run_schedule(cfg, sch, seed=ctx.seed * 1000003 + i))
+            kept.append((cfg, sch))
+        except watchdog.Hang:
+            findings.append({"props": ["C09"], "fields": ["hang"], "cause": "hang", "cfg": cfg, "schedule": sch, "line": 0, "rows": []})
+    cases = kept
     rows_total = sum(len(t["rows"]) for t in traces)
     from vf import tracecheck
 
